@@ -14,8 +14,17 @@ theorem once_push_from_unreachable (s s' : St) (p : PoolId) (u : UnitId) (hs : s
     (∀ q, s.loc u ≠ .inPool q) ∧ (∀ e, s.loc u ≠ .running e) ∧ s.loc u ≠ .done ∧ s.loc u ≠ .freed ∧ s.loc u ≠ .none ∧
     s'.loc u = .inPool p := by
   simp only [step, stepPush] at hs
-  cases hl : s.loc u <;> simp only [hl, pushable] at hs <;> (repeat' (split at hs)) <;> (try cases hs) <;>
-    simp_all [upd]
+  split at hs
+  · rename_i h
+    cases hs
+    have hp := h.1
+    refine ⟨?_, ?_, ?_, ?_, ?_, by simp [upd]⟩
+    · intro q hl; rw [hl] at hp; simp [pushable] at hp
+    · intro e hl; rw [hl] at hp; simp [pushable] at hp
+    · intro hl; rw [hl] at hp; simp [pushable] at hp
+    · intro hl; rw [hl] at hp; simp [pushable] at hp
+    · intro hl; rw [hl] at hp; simp [pushable] at hp
+  · cases hs
 
 /-- a pop returns only a unit that is in that pool, and takes it out: until it is pushed again nobody else can pop it -/
 theorem once_pop_takes_out (s s' : St) (e : EsId) (p : PoolId) (u : UnitId) (hs : step s (.pop e p u) = some s') :
